@@ -229,12 +229,31 @@ func stdWalk(l *list.List, back bool) (vals []int, ended bool) {
 	return vals, true
 }
 
-// consistent: Len equals the number of elements reachable in either direction (always true unless handles that
-// predate an Init were used).
+// consistent: the chain is a proper doubly linked list of Len real elements – the backward walk visits exactly the
+// elements of the forward walk in reverse and the sentinel is never exposed (always true unless handles that
+// predate an Init were used). On other lists container/list copies Len elements following one direction (and the
+// sentinel's nil Value), the thread-safe flavour copies the forward chain, the lock-free one panics on the sentinel.
 func consistent(l *list.List) bool {
-	f, okF := stdWalk(l, false)
-	b, okB := stdWalk(l, true)
-	return okF && okB && l.Len() == len(f) && l.Len() == len(b)
+	var f, b []*list.Element
+	for e := l.Front(); e != nil; e = e.Next() {
+		if f = append(f, e); len(f) > walkLimit || e.Value == nil {
+			return false
+		}
+	}
+	for e := l.Back(); e != nil; e = e.Prev() {
+		if b = append(b, e); len(b) > walkLimit {
+			return false
+		}
+	}
+	if l.Len() != len(f) || len(f) != len(b) {
+		return false
+	}
+	for i := range f {
+		if f[i] != b[len(b)-1-i] {
+			return false
+		}
+	}
+	return true
 }
 
 func flavourName(ts bool) string {
@@ -501,22 +520,28 @@ func (w *world) compare() (kind, what string) {
 		if ok, d := w.sameElem(h.Back(), s.Back()); !ok {
 			return "back", ln + " Back(): " + d
 		}
-		// bulk accessors (they cannot be bounded from outside: only when the handle walk above – which agreed – ended)
-		if fwdEnded {
-			if v := h.Values(); !eqInts(v, fwd) {
+		// bulk accessors: not part of container/list, defined through the forward/backward walk. Demanded only while
+		// the list is a proper chain of Len elements (always, unless handles that predate an Init were used): on a list
+		// whose Len and chain disagree (Len may even be negative) they have no reference behaviour and cannot be
+		// bounded from outside. Len, Front/Back and the handle walks above are demanded in every state.
+		_, _ = fwdEnded, revEnded
+		if consistent(s) {
+			var v, a, c2, b, d2 []int
+			if p := try(func() {
+				v = h.Values()
+				_ = h.ForEach(func(x int) error { a = append(a, x); return nil })
+				h.Range(func(x int) { c2 = append(c2, x) })
+				_ = h.ForEachReverse(func(x int) error { b = append(b, x); return nil })
+				h.RangeReverse(func(x int) { d2 = append(d2, x) })
+			}); p != nil {
+				return "bulk-panic", fmt.Sprintf("%s Values/ForEach/Range panicked: %v", ln, p)
+			}
+			if !eqInts(v, fwd) {
 				return "values", fmt.Sprintf("%s Values()=%v, container/list %v", ln, v, fwd)
 			}
-			var a, c2 []int
-			_ = h.ForEach(func(v int) error { a = append(a, v); return nil })
-			h.Range(func(v int) { c2 = append(c2, v) })
 			if !eqInts(a, fwd) || !eqInts(c2, fwd) {
 				return "foreach", fmt.Sprintf("%s ForEach=%v Range=%v, container/list %v", ln, a, c2, fwd)
 			}
-		}
-		if revEnded {
-			var b, d2 []int
-			_ = h.ForEachReverse(func(v int) error { b = append(b, v); return nil })
-			h.RangeReverse(func(v int) { d2 = append(d2, v) })
 			if !eqInts(b, rev) || !eqInts(d2, rev) {
 				return "foreach-reverse", fmt.Sprintf("%s ForEachReverse=%v RangeReverse=%v, container/list %v", ln, b, d2, rev)
 			}
@@ -987,7 +1012,7 @@ func run(c *vf.Ctx) {
 	c.Require("op:MoveToFront(stale)", 100)
 	c.Require("selfpush_children_decided", 2)
 	c.Assume("container/list of the Go toolchain is the reference")
-	c.Assume("handles that predate an Init() stay in the pool as class stale and full lock-step equality is demanded for them; only whole-list pushes FROM a list whose Len and reachable chain disagree (reachable only through stale handles) are skipped")
+	c.Assume("handles that predate an Init() stay in the pool as class stale and full lock-step equality is demanded for them; only whole-list pushes FROM, and Values/ForEach/Range(+Reverse) ON, a list whose Len and reachable chain disagree (reachable only through stale handles) are not demanded")
 }
 
 func main() { vf.Main("C10", "exploration", run, child) }
